@@ -112,7 +112,7 @@ def run(prog, rep, tier, cfg):
     X.guard('K6b', 'nesting:recoveries-within-faults', VB, rb, m_pred('contains_all', ['F:Partition.faults', 'F:Partition.recoveries'], True), 'faults ⊉ recoveries => Err')
     VP = X.fn(PT + 'validate_power_state', CR)
     for fld in ('live_power', 'unproven_power', 'faulty_power', 'recovering_power'):
-        n = len(X.find_conds(VP, m_pred('is_negative', ['F:Partition.' + fld], False)))
+        n = len(X.find_conds(VP, m_pred('is_negative', ['F:Partition.' + fld], False))) if True else 0
         rep.need('K6b', 'power-memo:non-negative:%s' % fld, n >= 2, 'negative %s (raw or qa) => Err (found %d tests)' % (fld, n), X.loc(VP))
     for a, b in (('unproven_power', 'live_power'), ('faulty_power', 'live_power'), ('recovering_power', 'faulty_power')):
         X.guard('K6b', 'power-memo:%s<=%s' % (a, b), VP, VP.ret_blocks(), m_rel('gt', ['F:Partition.' + a], ['F:Partition.' + b], False), '%s.raw > %s.raw => Err' % (a, b))
